@@ -24,7 +24,8 @@ REAL = ["ovniemu, ovnidump -x, ovnitop (src/emu/**: player.c, heap.h, stream.c, 
 STUB = ["libovni replaced by the independent trace writer sim/tracefmt.py", "directory enumeration order driven through creation order on tmpfs"]
 ASSUMPTIONS = ["corrected clocks stay positive (BASE 1e13 ns) -- streams whose corrected first clock is negative are outside the domain",
                "with equal corrected clocks across streams only the *set* of events per timestamp is compared (the statement leaves tie order open)",
-               "ovnidump/ovnitop apply no offsets: their order is checked against raw clocks"]
+               "ovnidump/ovnitop apply no offsets: what they print is first checked against raw clocks (loss-free, per-stream order, "
+               "non-decreasing raw time) and then against corrected time, where the mismatch is the recorded finding O3 (KNOWN_FINDINGS)"]
 SHRINK_LIST = "sched"
 HOUR = 3600 * 10 ** 9
 
@@ -515,6 +516,19 @@ def check_dump(ctx, tdir, case, threads, streams, recs, info):
             want[e.mcv] = want.get(e.mcv, 0) + 1
     if counts != want:
         return result(False, "ovnitop-wrong-counts", None, "ovnitop says %r, trace has %r" % (counts, want), **info)
+    # last of all (so that nothing else is hidden behind it): the statement asks for corrected time, i.e. stream clock plus
+    # the offset of the stream's host, when the trace directory carries an offset table
+    if case["table"] in ("default", "partial"):
+        host_of = {s.relpath: threads[i][0]["host"] for i, s in enumerate(streams)}
+        prevc = None
+        for (clock, mcv, rel, data) in seq:
+            h = host_of[rel]
+            c = clock - (case["skews"][h] if h < case["keep"] else 0)
+            if prevc is not None and c < prevc[0]:
+                return result(False, "dump-ignores-offset-table", "dump-ignores-offset-table",
+                              "clock-offsets.txt is in the trace directory, but ovnidump merges the streams by raw clock: %s@%d (corrected %d) is printed "
+                              "after %s@%d (corrected %d)" % (rel, clock, c, prevc[1], prevc[2], prevc[0]), **info)
+            prevc = (c, rel, clock)
     return None
 
 
